@@ -338,7 +338,7 @@ pub fn c06(tier: Tier) -> ! {
                         if tier == Tier::Quick && (pi + n + steps as usize) % 2 == 1 {
                             continue;
                         }
-                        for spec in [ProbeSpec::standard(n), ProbeSpec::interior(n), ProbeSpec::standard(n).raw(), ProbeSpec::outside(n), ProbeSpec::near_bound(n), ProbeSpec::interior(n).aliased()].iter() {
+                        for spec in [ProbeSpec::standard(n), ProbeSpec::interior(n), ProbeSpec::standard(n).raw(), ProbeSpec::outside(n), ProbeSpec::near_bound(n), ProbeSpec::interior(n).aliased(), ProbeSpec::inverted(n)].iter() {
                             // (moves below machine epsilon only from starts where they are representable)
                             if ms == 2e-16 && spec.start != ProbeSpec::near_bound(n).start && spec.start != ProbeSpec::interior(n).start {
                                 continue;
@@ -506,7 +506,7 @@ pub fn c07(tier: Tier) -> ! {
     let mut jobs = vec![];
     for n in 2..=3usize {
         for &(steps, inner) in steps_grid(tier).iter() {
-            for &(kt, fin, ratio) in [(0., None, Some(0.)), (0., None, Some(0.5)), (0.1, None, Some(0.)), (1., None, Some(0.5)), (0.5, Some(0.05), None), (1e-3, None, None), (f64::INFINITY, None, Some(0.)), (-1., None, Some(0.))].iter() {
+            for &(kt, fin, ratio) in [(0., None, Some(0.)), (0., None, Some(0.5)), (0.1, None, Some(0.)), (1., None, Some(0.5)), (0.5, Some(0.05), None), (1e-3, None, None), (f64::INFINITY, None, Some(0.)), (-1., None, Some(0.)), (1., None, Some(1.)), (0.5, Some(0.), None)].iter() {
                 for (pi, pat) in patterns().into_iter().enumerate() {
                     if tier == Tier::Quick && (pi + n + steps as usize) % 2 == 1 {
                         continue;
@@ -521,8 +521,18 @@ pub fn c07(tier: Tier) -> ! {
                         ladder_depth: if n == 2 && pi == 0 && (steps == 4 || steps == 6) { tier.pick(3, 4) } else { 0 },
                     });
                     if pi < 2 {
-                        // the same histories against an inconsistent (call-by-call) score function
+                        // the same histories from a start outside the declared ranges
                         let mut j = jobs.last().unwrap().clone();
+                        j.spec = ProbeSpec::outside(n);
+                        j.product_depth = 0;
+                        j.ladder_depth = 0;
+                        j.max_dev = j.max_dev.min(2);
+                        j.default_q = 0.;
+                        jobs.push(j);
+                    }
+                    if pi < 2 {
+                        // the same histories against an inconsistent (call-by-call) score function
+                        let mut j = jobs[jobs.len() - 2].clone();
                         j.spec = j.spec.raw();
                         j.product_depth = 0;
                         j.ladder_depth = 0;
@@ -545,8 +555,9 @@ pub fn c07(tier: Tier) -> ! {
             // not a temperature: only the clauses that hold whatever kT is are judged
             mask = F_NONE_ACCEPTED | F_BETTER_REJECTED;
         }
-        if cfg.kt_ratio.is_some() {
-            // a zero temperature multiplied by a finite ratio is zero in every loop
+        if cfg.kt_ratio.is_some() || cfg.kt_finish == Some(0.) {
+            // a zero temperature multiplied by a finite ratio is zero in every loop, and so is
+            // any temperature after a cooling factor of exactly zero
             mask |= F_WORSE_ACCEPTED_ZERO_T_LATER;
         }
         let f = an.flags_all & mask;
@@ -669,7 +680,7 @@ pub fn c05_jobs(tier: Tier) -> Vec<Job> {
     let mut jobs = vec![];
     let fins = [None, Some(0.), Some(1e-3), Some(1.)];
     // ratios above one (over-cooling) and below zero (heating, up to an absurd factor) are legal
-    let ratios = [None, Some(0.), Some(0.1), Some(1.), Some(2.), Some(-3.), Some(-1e200)];
+    let ratios = [None, Some(0.), Some(0.1), Some(1.), Some(2.), Some(-3.), Some(-1e200), Some(f64::NEG_INFINITY), Some(f64::INFINITY)];
     let mss = [0.01, 0.5, 1.];
     let convs = [None, Some(0.), Some(1e-3)];
     let mut k = 0usize;
@@ -693,6 +704,14 @@ pub fn c05_jobs(tier: Tier) -> Vec<Job> {
                                 product_depth: if pi == 0 && steps == 4 && ms == 0.5 && conv.is_none() && n == 2 { 3 } else { 0 },
                                 ladder_depth: if pi == 0 && steps == 6 && ms == 0.5 && conv.is_none() { 3 } else { 0 },
                             });
+                            if k % 8 == 0 {
+                                // a zero that carries a minus sign is a zero
+                                let mut j = jobs.last().unwrap().clone();
+                                j.cfg.kt_start = -0.0;
+                                j.product_depth = 0;
+                                j.ladder_depth = 0;
+                                jobs.push(j);
+                            }
                             if k % 12 == 0 {
                                 let mut j = jobs.last().unwrap().clone();
                                 j.spec = ProbeSpec::outside(n);
@@ -1301,6 +1320,21 @@ pub fn c20_library(run: &mut Run, tier: Tier) -> LibC20 {
         }
     }
     run.set("falling_score_runs", falling_runs);
+    // "run until converged": an astronomically large step count with a threshold ends after six loops
+    for &(steps, inner) in [(1u64 << 62, 1u64), (u64::MAX, 1), (u64::MAX, 3)].iter() {
+        for &kt in [0., 0.1].iter() {
+            let cfg = Cfg { steps, inner, kt_start: kt, kt_finish: None, kt_ratio: Some(0.), max_step: 0.01, convergence: Some(f64::INFINITY), history: 0 };
+            let spec = ProbeSpec::interior(2);
+            let script: Vec<StepScript> = (1..=40usize).map(|t| StepScript { index: (t - 1) % 2, q: 0.75, thr_k: thr_k_of(0.5), answer: Some(t as f64) }).collect();
+            let obs = run_script(&cfg, &spec, &script);
+            let want = 6 * inner as usize;
+            if let Some(p) = &obs.panic {
+                run.fail(None, &format!("optimiser panicked: {}", p), case_json(&cfg, &spec, &script));
+            } else if obs.proposals.len() != want {
+                run.fail(None, &format!("steps = {} with an infinite convergence threshold: {} proposals evaluated, {} expected (six inner loops)", steps, obs.proposals.len(), want), case_json(&cfg, &spec, &script));
+            }
+        }
+    }
     let prev_hook = std::panic::take_hook();
     std::panic::set_hook(Box::new(|_| {}));
     let jobs: Vec<(Cfg, Vec<Option<f64>>, usize)> = jobs.into_iter().enumerate().map(|(i, (c, p))| (c, p, i)).collect();
